@@ -608,8 +608,10 @@ func (c *client) Start() {
 	})
 	<-writeDone
 	vhook.At("redis.client.start.before_drain")
-	c.drainRequests()
+	// NOTE: done must be closed before the queues are drained, a sender which
+	// enqueues a request later will see it and drain the queues by itself.
 	close(c.done)
+	c.drainRequests()
 }
 
 func (c *client) Send(req *simpleRequest) {
@@ -618,7 +620,19 @@ func (c *client) Send(req *simpleRequest) {
 		req.SetResponse(newError(backendExited))
 	default:
 		vhook.At("redis.client.send.before_enqueue")
-		c.pendingReqs <- req
+		select {
+		case <-c.quit:
+			req.SetResponse(newError(backendExited))
+			return
+		case c.pendingReqs <- req:
+		}
+		// The client may have exited and drained its queues between the check
+		// above and the enqueue, then nobody will ever take the request out.
+		select {
+		case <-c.done:
+			c.drainRequests()
+		default:
+		}
 	}
 }
 
